@@ -240,7 +240,7 @@ class MemorySequenceIO(SequenceIO):
   ) -> Sequence:
     """Opens a reader for a sequence."""
     del kwargs
-    if 'w' in mode:
+    if 'w' in mode or ('a' in mode and path not in self._root):
       self._root[path] = []
     return MemorySequence(
         path, mode, self._root[path],
